@@ -379,7 +379,18 @@ async fn run(case: &PhaseCase, which: Which, v: Views, typed: Typed, refreshed: 
             }
         }
     } else {
-        // C14: advertised topology on every proxy of the cluster
+        // C14: advertised topology on every proxy of the cluster. A case frozen before the handshake is
+        // afterwards ADVANCED in the same world (release PRECHECK, hold SCAN) and queried again: the
+        // advertised topology has to follow the handshake between two queries within one epoch
+        let advance = case.phase == 0 && n_mig > 0 && case.probes.first().map(|x| x % 2 == 0).unwrap_or(false);
+        let passes: Vec<u8> = if advance { vec![0, 1] } else { vec![case.phase] };
+        for (pass_no, phase_now) in passes.into_iter().enumerate() {
+        if pass_no == 1 {
+            world.net.gate.hold("SCAN");
+            world.net.gate.release("UMCTL:PRECHECK");
+            tokio::time::sleep(Duration::from_millis(300)).await;
+            obs.class("topology:queried-again-after-the-handshake-advanced");
+        }
         for p in &members {
             let nodes = match world.once(p, &cmd(&["CLUSTER", "NODES"])).await {
                 Resp::Bulk(BulkStr::Str(s)) => String::from_utf8_lossy(&s).to_string(),
@@ -393,7 +404,7 @@ async fn run(case: &PhaseCase, which: Which, v: Views, typed: Typed, refreshed: 
                     Some((sp, _, dp, _)) => {
                         if p == sp || p == dp {
                             // a proxy that runs the migration knows its phase
-                            vec![if case.phase == 0 { sp.clone() } else { dp.clone() }]
+                            vec![if phase_now == 0 { sp.clone() } else { dp.clone() }]
                         } else {
                             vec![sp.clone(), dp.clone()]
                         }
@@ -409,11 +420,12 @@ async fn run(case: &PhaseCase, which: Which, v: Views, typed: Typed, refreshed: 
             } else {
                 "stable"
             };
-            obs.class(format!("topology-on:{}:phase{}", role, case.phase));
+            obs.class(format!("topology-on:{}:phase{}", role, phase_now));
             if n_mig > 0 {
                 obs.nontrivial = true;
             }
-            c14::check_topology(&t, p, &expected, &format!("proxy {} ({}, phase {})", p, role, case.phase))?;
+            c14::check_topology(&t, p, &expected, &format!("proxy {} ({}, phase {}{})", p, role, phase_now, if pass_no == 1 { ", second query in the same world after the handshake advanced" } else { "" }))?;
+        }
         }
     }
     Ok(())
@@ -436,7 +448,7 @@ pub fn check_topology(case: &PhaseCase, obs: &mut Obs) -> Result<(), Fail> {
 }
 
 pub const RULE: &str = "broker states reached by generated operation histories (stable, mid-migration, after failover/replacement, limited migration) are delivered to a world of REAL proxies (one per cluster member, two Redis stand-ins each) through the REAL coordinator sender (SETREPL + SETCLUSTER, plain or compressed); the real migrations are frozen in a generated phase pair by holding PRECHECK / SCAN / FINALSWITCH messages; in half of the cases the metadata is then refreshed 1-2 times while the migration is in flight (admin epoch bump, same content re-sent with a higher epoch through the real sender); from EVERY proxy of the cluster a SET with a unique token is sent for every range boundary +-1 and generated slots, MOVED followed; oracle from the broker's cluster JSON: executed (stand-in logs) on exactly the designated node - the node HOLDING the migrating range in (PreCheck,PreCheck), the node HOLDING its importing twin afterwards (not the addresses written inside the migration meta) -, <=1 redirection for stable and <=3 for migrating slots, no data command on a foreign node; non-trivial = >=2 proxies and (start proxy != owner proxy or slot migrating); distinct = hash of the case";
-pub const RULE_TOPO: &str = "[phases] the same frozen-phase worlds built from reachable broker states: CLUSTER NODES and CLUSTER SLOTS of EVERY proxy (source, destination, bystander) parsed independently; every slot exactly once in each and at the same address; stable slots at the owner proxy, migrating slots at the source in (PreCheck,PreCheck) and at the destination afterwards on the proxies that run the migration, once at either side on bystanders; non-trivial = the state has a migration";
+pub const RULE_TOPO: &str = "[phases] the same frozen-phase worlds built from reachable broker states: CLUSTER NODES and CLUSTER SLOTS of EVERY proxy (source, destination, bystander) parsed independently; every slot exactly once in each and at the same address; stable slots at the owner proxy, migrating slots at the source in (PreCheck,PreCheck) and at the destination afterwards on the proxies that run the migration, once at either side on bystanders; half of the cases frozen before the handshake are then advanced in the same world (PRECHECK released, SCAN held) and queried a second time; non-trivial = the state has a migration";
 
 pub fn run_prop(ctx: &Ctx, findings: &Findings) -> PropReport {
     let mut subs = vec![];
